@@ -600,7 +600,7 @@ class Check:
             "harness_problems": self.harness_problems[:10],
             "exhaustive": False,
         }
-        for k in ("sweep_pairwise", "sweep_fault_sites", "sweep_all_paths", "sweep_detector_abort", "sweep_build_abort", "sweep_address_reuse"):
+        for k in ("sweep_pairwise", "sweep_fault_sites", "sweep_all_paths", "sweep_detector_abort", "sweep_build_abort", "sweep_address_reuse", "sweep_hashseed", "sweep_cold_start"):
             if k in st:
                 cov[k] = st[k]
         if extra_cov:
@@ -726,6 +726,10 @@ def run_c14(chk: Check) -> None:
         sweeps.detector_abort_sweep(chk, 3 if quick else 12, 6 if quick else 24)
     if len(chk.violations) < 5:
         sweeps.address_reuse_sweep(chk, 44 if quick else 200)
+    if len(chk.violations) < 5:
+        sweeps.hashseed_sweep(chk, 1 if quick else 4)
+    if len(chk.violations) < 5:
+        sweeps.cold_start_sweep(chk)
     if not quick:
         sweeps.pairwise_history(chk)
         sweeps.fault_site_sweep(chk)
